@@ -437,8 +437,9 @@ def cctx_stream(prog, res):
         sites = [(b, i) for b, i, _ in w.get((fld,), [])]
         ok = bool(sites) and bool(sess)
         if ok:
-            blk = {b for b, i in sites}
-            ok = any(f_reach(cr, e, blk) for e in sess)
+            # every path from the session edge to the function's exit executes the write (an earlier version followed straight-line
+            # blocks only and alarmed when the repaired ZSTD_CCtx_reset first waits for the worker jobs under an `if`)
+            ok = all(cr.must_pass(via_roots=sites, starts=[(e[1], 0)], targets=[cr.exit_node()] + [(b, i) for b, i, r in cr.returns()]) for e in sess)
         res.check(ok, R, "CCtx_reset:" + fld, cr.loc, "a session reset re-establishes " + fld,
                   "ZSTD_CCtx_reset(session) leaves `%s` of the abandoned session in place" % fld)
     s2 = prog.fn("ZSTD_compressStream2")
@@ -738,6 +739,13 @@ def run(tier):
     from .C15 import cycle_log_callers        # shared clause: what overflow correction does depends only on the parameters' chainLog
     cycle_log_callers(prog, res)
     dictionary_validity_history_independent(prog, res)
+    # a session reset drops what describes the caller's buffers of the abandoned session (re-submitted by flushStream/endStream)
+    rs = prog.fn("ZSTD_CCtx_reset")
+    wiped = any((x.get("k") == "call" and x.get("c") in ("memset", "__builtin_memset") and any(y.get("f") == "expectedInBuffer" for y in walk(x["a"][0]))) or
+                (x.get("k") == "asg" and any(y.get("f") == "expectedInBuffer" for y in walk(x["lhs"]))) for _, _, r in rs.roots() for x in walk(r))
+    res.check(wiped, "T13.cctx-stream-session", "ZSTD_CCtx_reset:expectedInBuffer", rs.loc, "the recorded stable input buffer is forgotten by a session reset",
+              "ZSTD_CCtx_reset keeps cctx->expectedInBuffer: ZSTD_endStream/ZSTD_flushStream of the next session re-submit the abandoned session's buffer "
+              "(compressing stale bytes out of memory the caller may have released)")
     return res.finish(
         explanation="No field of the match state, window, optimal-parser statistics, compressed-block state, CCtx frame session "
                     "or CCtx stream session that operation code writes survives a reset unless it is on a reasoned exception "
